@@ -615,7 +615,7 @@ def s9(ctx):
                 work.append(c)
                 if c.has_cycle() and nm == 'drain_into':
                     continue  # the drain loops may live in a helper or in the other flavour's drain_into; R9 pins their shape and bound
-                if c.has_cycle():
+                if c.has_cycle() and not batch_loop_ok(ctx, c):
                     ctx.violate(b.key, None, 'non-blocking operation reaches %s, which contains a loop (unbounded number of steps)' % c.key, sig='callee-cycle:' + c.key)
         if nm.endswith('_realtime'):
             ctx.oblige(1)
